@@ -28,6 +28,7 @@ type specEnv struct {
 	inOld    bool
 	depth    int
 	pkgT     *types.Package
+	atInstr  ssa.Instruction
 }
 
 type specError struct{ msg string }
@@ -244,7 +245,7 @@ func (e *specEnv) ident(name string) Val {
 		return Val{T: c.heapVar(e.state(), hn, c.sortOf(t)), Typ: t}
 	}
 	if e.at != nil {
-		if v, ok := e.f.localAt(name, e.at, e.state()); ok {
+		if v, ok := e.f.localAt(name, e.at, e.state(), e.atInstr); ok {
 			return v
 		}
 	}
@@ -736,6 +737,26 @@ func (e *specEnv) callSpecFunc(sf *SpecFunc, args []ast.Expr) Val {
 		}
 		n.vars[p.Name] = v
 	}
+	if sf.Rec {
+		return e.callRecFunc(sf, n)
+	}
+	if sf.Uninterp {
+		c := e.c()
+		var sorts []*Sort
+		var ts []*Term
+		for _, p := range sf.Params {
+			t := e.f.term(n.vars[p.Name])
+			sorts = append(sorts, t.Sort)
+			ts = append(ts, t)
+		}
+		rt := c.evalType(sf.Result, e.pkg())
+		if rt == nil {
+			e.fail("unknown result type %q of ufunc %s", sf.Result, sf.Name)
+		}
+		c.declFun("uf$"+sf.Name, sorts, c.sortOf(rt))
+		c.note("uninterpreted specification function " + sf.Name)
+		return Val{T: App("uf$"+sf.Name, c.sortOf(rt), ts...), Typ: rt}
+	}
 	r := n.eval(sf.Body.E)
 	if sf.Result != "" {
 		if t := e.c().evalType(sf.Result, e.pkg()); t != nil {
@@ -794,14 +815,15 @@ func (e *specEnv) methodCall(sel *ast.SelectorExpr, args []ast.Expr) Val {
 }
 
 // localAt resolves a source-level local variable name at the entry of block at.
-func (f *frame) localAt(name string, at *ssa.BasicBlock, st State) (Val, bool) {
-	// phis of the block first (loop-carried variables)
+func (f *frame) localAt(name string, at *ssa.BasicBlock, st State, upto ssa.Instruction) (Val, bool) {
+	// phis of the block first (loop-carried variables); hidden loop counters
+	// are spelled with '_' for '.', e.g. rangeint_iter
 	for _, in := range at.Instrs {
 		phi, ok := in.(*ssa.Phi)
 		if !ok {
 			break
 		}
-		if phi.Comment == name {
+		if phi.Comment == name || strings.ReplaceAll(phi.Comment, ".", "_") == name {
 			return f.get(phi), true
 		}
 	}
@@ -815,6 +837,19 @@ func (f *frame) localAt(name string, at *ssa.BasicBlock, st State) (Val, bool) {
 	// the variable wins, and within it the last mention.
 	var best ssa.Value
 	var bestIsAddr bool
+	if upto != nil {
+		for _, in := range at.Instrs {
+			if in == upto {
+				break
+			}
+			if dr, ok := in.(*ssa.DebugRef); ok {
+				if id, ok := dr.Expr.(*ast.Ident); ok && id.Name == name {
+					best = dr.X
+					bestIsAddr = dr.IsAddr
+				}
+			}
+		}
+	}
 	for b := at.Idom(); b != nil && best == nil; b = b.Idom() {
 		for _, in := range b.Instrs {
 			if dr, ok := in.(*ssa.DebugRef); ok {
@@ -843,4 +878,101 @@ func (f *frame) localAt(name string, at *ssa.BasicBlock, st State) (Val, bool) {
 		}
 	}
 	return Val{}, false
+}
+
+// ---------- recursive specification functions ----------
+
+type recDef struct {
+	heaps  []string // heap names the body reads, in order
+	sorts  []*Sort
+	result types.Type
+}
+
+// callRecFunc: a recursive spec function becomes an SMT define-fun-rec whose
+// parameters are the declared parameters followed by the heap arrays its body
+// reads; a call passes the current state's arrays.
+func (e *specEnv) callRecFunc(sf *SpecFunc, n *specEnv) Val {
+	c := e.c()
+	if c.recDefs == nil {
+		c.recDefs = map[string]*recDef{}
+	}
+	name := "rec$" + sf.Name
+	rd := c.recDefs[name]
+	rt := c.evalType(sf.Result, e.pkg())
+	if rt == nil {
+		e.fail("rec spec func %s needs a result type", sf.Name)
+	}
+	if rd == nil {
+		if c.recBuilding == nil {
+			c.recBuilding = map[string]*recDef{}
+		}
+		if b := c.recBuilding[name]; b != nil {
+			// self-call while building the definition: formal heaps are passed on
+			var ts []*Term
+			for _, p := range sf.Params {
+				ts = append(ts, e.f.term(n.vars[p.Name]))
+			}
+			for i, h := range b.heaps {
+				ts = append(ts, Var("hp$"+smtIdent(h), b.sorts[i]))
+			}
+			return Val{T: App(name, c.sortOf(rt), ts...), Typ: rt}
+		}
+		// two passes: discover the heaps, then define
+		var heaps []string
+		var sorts []*Sort
+		for pass := 0; pass < 2; pass++ {
+			b := &recDef{heaps: heaps, sorts: sorts, result: rt}
+			c.recBuilding[name] = b
+			tmpl := State{}
+			for i, h := range heaps {
+				tmpl[h] = Var("hp$"+smtIdent(h), sorts[i])
+			}
+			env := &specEnv{f: e.f, st: tmpl, old: tmpl, vars: map[string]Val{}, depth: e.depth + 1, calleeOf: e.calleeOf, pkgT: e.pkgT}
+			var formals []string
+			for _, p := range sf.Params {
+				pt := c.evalType(p.Type, e.pkg())
+				if pt == nil {
+					e.fail("unknown parameter type %q in rec spec func %s", p.Type, sf.Name)
+				}
+				fv := Var("fp$"+p.Name, c.sortOf(pt))
+				env.vars[p.Name] = Val{T: fv, Typ: pt}
+				formals = append(formals, fmt.Sprintf("(%s %s)", fv.Op, fv.Sort))
+			}
+			nh := len(c.hyps)
+			body := env.eval(sf.Body.E)
+			body = env.fit(body, rt)
+			c.hyps = c.hyps[:nh] // definitional side hypotheses of the template are not global facts
+			delete(c.recBuilding, name)
+			if pass == 0 {
+				heaps, sorts = nil, nil
+				for _, h := range sortedKeys(tmpl) {
+					if h == "$alloc" {
+						continue
+					}
+					heaps = append(heaps, h)
+					sorts = append(sorts, tmpl[h].Sort)
+				}
+				continue
+			}
+			// rename template heap variables (name@0 created lazily) to formals
+			m := map[string]*Term{}
+			for i, h := range heaps {
+				m[h+"@0"] = Var("hp$"+smtIdent(h), sorts[i])
+				formals = append(formals, fmt.Sprintf("(hp$%s %s)", smtIdent(h), sorts[i]))
+			}
+			bt := subst(e.f.term(body), m)
+			c.ensureSort(c.sortOf(rt))
+			c.declare(name, fmt.Sprintf("(define-fun-rec %s (%s) %s %s)", name, strings.Join(formals, " "), c.sortOf(rt), bt))
+			rd = &recDef{heaps: heaps, sorts: sorts, result: rt}
+			c.recDefs[name] = rd
+		}
+	}
+	var ts []*Term
+	for _, p := range sf.Params {
+		ts = append(ts, e.f.term(n.vars[p.Name]))
+	}
+	for i, h := range rd.heaps {
+		ts = append(ts, c.heapVar(e.state(), h, rd.sorts[i]))
+	}
+	return Val{T: App(name, c.sortOf(rt), ts...), Typ: rt}
 }
